@@ -356,18 +356,28 @@ func runC15Timeouts(c *Ctx, t *tSchema) {
 	r.Eval(parsed)
 	r.Set("timeout_values_through_parser_hook", parsed)
 	// malformed shapes
+	// each one three times on the same mux (a refusal must not be remembered as anything else),
+	// with a legal value in between
 	for _, to := range c15Malformed() {
 		if to == "" {
 			continue // an empty header means "no timeout"
 		}
-		oracle, note := e.timeoutCheck(to, true)
-		r.Eval(1)
-		if oracle != "" {
-			r.Outcome("FAIL:" + oracle)
-			r.Violation(report.Violation{Oracle: oracle, Key: oracle + " grpc-timeout=" + fmt.Sprintf("%q", to), Case: c15TimeoutCase{to}, Note: note})
-		} else {
+		for rep := 0; rep < 3; rep++ {
+			oracle, note := e.timeoutCheck(to, true)
+			r.Eval(1)
+			if oracle != "" {
+				r.Outcome("FAIL:" + oracle)
+				r.Violation(report.Violation{Oracle: oracle, Key: fmt.Sprintf("%s grpc-timeout=%q attempt=%d on one mux", oracle, to, rep+1), Case: c15TimeoutCase{to}, Note: fmt.Sprintf("attempt %d with this value on the same mux: %s", rep+1, note)})
+				break
+			}
 			r.Outcome("timeout:" + note)
 			r.Distinct("malformed|" + to)
+			if o2, n2 := e.timeoutCheck("5S", false); o2 != "" {
+				r.Outcome("FAIL:" + o2)
+				r.Violation(report.Violation{Oracle: o2, Key: fmt.Sprintf("%s grpc-timeout=\"5S\" after malformed %q", o2, to), Case: c15TimeoutCase{"5S"}, Note: "a legal value right after a refused one: " + n2})
+				break
+			}
+			r.Eval(1)
 		}
 	}
 	// behind a slow stats handler the deadline still counts from receipt
@@ -778,9 +788,10 @@ func replayC15(c *Ctx, v report.Violation) {
 	if remarshal(v.Case, &tc) && (tc.Timeout != "" || strings.Contains(v.Key, "grpc-timeout")) {
 		t, _ := newTSchema()
 		e := newC15Env(t)
-		oracle, note := e.timeoutCheck(tc.Timeout, true) // plain mux
-		if oracle == "" {
-			oracle, note = e.timeoutCheck(tc.Timeout, true) // mux with options
+		// three times on each of the two muxes (plain / with options, alternating)
+		oracle, note := "", ""
+		for k := 0; k < 6 && oracle == ""; k++ {
+			oracle, note = e.timeoutCheck(tc.Timeout, true)
 		}
 		if _, valid := refTimeout(tc.Timeout); oracle == "" && valid {
 			oracle, note = e.slowStatsCheck(tc.Timeout)
